@@ -649,14 +649,8 @@ func r01_8(c *Ctx, rule string) {
 			continue
 		}
 		n++
-		key := c.name(call.Parent()) + "/" + name
 		con := c.siteName(call)
-		ord := con[strings.LastIndex(con, "#"):]
-		if why, ok := r018Exceptions[key]; ok {
-			c.R.OK(rule, con+"/tabled", c.pos(call), "tabled: "+why)
-			continue
-		}
-		if why, ok := r018Exceptions[key+ord]; ok {
+		if why, ok := tabled(c, r018Exceptions, call); ok {
 			c.R.OK(rule, con+"/tabled", c.pos(call), "tabled: "+why)
 			continue
 		}
